@@ -29,6 +29,7 @@ type Solver struct {
 	Queries int
 	Time    time.Duration
 	GetTime time.Duration
+	scoped  bool
 	LastErr string
 	Log     io.Writer
 }
@@ -87,13 +88,14 @@ func (s *Solver) Send(line string) {
 	io.WriteString(s.in, "\n")
 }
 
-// Reset clears all assertions and declarations.
+// Reset clears all assertions and declarations of the current path. It keeps the solver
+// context alive (pop/push of an outer scope) because a full (reset) costs ~1 ms per path.
 func (s *Solver) Reset() {
-	s.Send("(reset)")
-	s.Send("(set-option :produce-models true)")
-	if s.Name == "cvc5" {
-		s.Send("(set-logic QF_BV)")
+	if s.scoped {
+		s.Send("(pop 1)")
 	}
+	s.Send("(push 1)")
+	s.scoped = true
 }
 
 func (s *Solver) Declare(v *Term) {
